@@ -392,6 +392,10 @@ Lemma ctl_observed_inv : forall c w, InvL None w -> wp (ctl_observed c) (IQ None
 Proof. intros. unfold ctl_observed. walk. Qed.
 #[export] Hint Resolve ctl_observed_inv : inv.
 
+Lemma do_pause_deferred_inv : forall msg next w, InvL None w -> wp (do_pause_deferred msg next) (IQ None) w.
+Proof. intros. unfold do_pause_deferred. walk. Qed.
+#[export] Hint Resolve do_pause_deferred_inv : inv.
+
 Lemma run_action_inv : forall id next w, InvL None w -> wp (run_action id next) (IQ None) w.
 Proof. intros. unfold run_action. walk. Qed.
 #[export] Hint Resolve run_action_inv : inv.
